@@ -156,7 +156,7 @@ fn one(ctx: &mut Ctx, env: &Env, rng: &mut Rng, base: &Engine, rv: &RefVoice, de
 pub fn run(ctx: &mut Ctx) {
     let env = Env::new(ctx);
     let bundled = env.load_bundled();
-    let n = ctx.n(160, 8000);
+    let n = ctx.n(400, 8000);
     ctx.run_cases("bundled", n, false, |ctx, rng, idx| {
         one(ctx, &env, rng, &bundled, &env.bundled_ref, "bundled", idx);
     });
@@ -181,7 +181,7 @@ pub fn run(ctx: &mut Ctx) {
         }
     });
     // generated voices (2 and 3 streams, different window sets)
-    let n = ctx.n(60, 3000);
+    let n = ctx.n(200, 3000);
     ctx.run_cases("synthetic", n, false, |ctx, rng, idx| {
         let mut o = crate::voicegen::VoiceOpts::random(rng);
         o.stage = 0;
